@@ -55,33 +55,43 @@ var callbackModels = map[string]int{
 // opaqueModels: library functions that do not touch the program heap; results are unconstrained
 // (fresh values, older than anything allocated later).
 var opaqueModels = map[string]bool{
-	"github.com/go-faster/jx.DecodeStr":                 true,
-	"github.com/go-faster/jx.DecodeBytes":               true,
-	"(*github.com/go-faster/jx.Decoder).Next":           true,
-	"(*github.com/go-faster/jx.Decoder).Str":            true,
-	"(*github.com/go-faster/jx.Decoder).StrBytes":       true,
-	"(*github.com/go-faster/jx.Decoder).Skip":           true,
-	"(*github.com/go-faster/jx.Decoder).Num":            true,
-	"(*github.com/go-faster/jx.Decoder).Null":           true,
-	"(*github.com/go-faster/jx.Decoder).Bool":           true,
-	"(*github.com/go-faster/jx.Decoder).Raw":            true,
-	"(github.com/go-faster/jx.Num).IsInt":               true,
-	"(github.com/go-faster/jx.Num).Int64":               true,
-	"(github.com/go-faster/jx.Num).Float64":             true,
-	"github.com/go-logfmt/logfmt.NewDecoder":            true,
-	"(*github.com/go-logfmt/logfmt.Decoder).ScanRecord": true,
-	"(*github.com/go-logfmt/logfmt.Decoder).ScanKeyval": true,
-	"(*github.com/go-logfmt/logfmt.Decoder).Key":        true,
-	"(*github.com/go-logfmt/logfmt.Decoder).Value":      true,
-	"(*github.com/go-logfmt/logfmt.Decoder).Err":        true,
-	"strings.NewReader":                                 true,
-	"(*text/scanner.Scanner).Peek":                      true,
-	"(*text/scanner.Scanner).Next":                      true,
-	"(*text/scanner.Scanner).Scan":                      true,
-	"(*text/scanner.Scanner).TokenText":                 true,
-	"(*text/scanner.Scanner).Pos":                       true,
-	"(*regexp.Regexp).FindStringSubmatch":               true,
-	"(*regexp.Regexp).SubexpNames":                      true,
+	"github.com/go-faster/jx.DecodeStr":                               true,
+	"github.com/go-faster/jx.DecodeBytes":                             true,
+	"(*github.com/go-faster/jx.Decoder).Next":                         true,
+	"(*github.com/go-faster/jx.Decoder).Str":                          true,
+	"(*github.com/go-faster/jx.Decoder).StrBytes":                     true,
+	"(*github.com/go-faster/jx.Decoder).Skip":                         true,
+	"(*github.com/go-faster/jx.Decoder).Num":                          true,
+	"(*github.com/go-faster/jx.Decoder).Null":                         true,
+	"(*github.com/go-faster/jx.Decoder).Bool":                         true,
+	"(*github.com/go-faster/jx.Decoder).Raw":                          true,
+	"(github.com/go-faster/jx.Num).IsInt":                             true,
+	"(github.com/go-faster/jx.Num).Int64":                             true,
+	"(github.com/go-faster/jx.Num).Float64":                           true,
+	"github.com/go-logfmt/logfmt.NewDecoder":                          true,
+	"(*github.com/go-logfmt/logfmt.Decoder).ScanRecord":               true,
+	"(*github.com/go-logfmt/logfmt.Decoder).ScanKeyval":               true,
+	"(*github.com/go-logfmt/logfmt.Decoder).Key":                      true,
+	"(*github.com/go-logfmt/logfmt.Decoder).Value":                    true,
+	"(*github.com/go-logfmt/logfmt.Decoder).Err":                      true,
+	"strings.NewReader":                                               true,
+	"(*github.com/spf13/cobra.Command).Context":                       true,
+	"(*github.com/spf13/cobra.Command).OutOrStdout":                   true,
+	"go.opentelemetry.io/collector/pdata/pcommon.NewValueSlice":       true,
+	"go.opentelemetry.io/collector/pdata/pcommon.NewValueMap":         true,
+	"go.opentelemetry.io/collector/pdata/pcommon.NewValueInt":         true,
+	"go.opentelemetry.io/collector/pdata/pcommon.NewValueDouble":      true,
+	"go.opentelemetry.io/collector/pdata/pcommon.NewValueBool":        true,
+	"(go.opentelemetry.io/collector/pdata/pcommon.Value).Slice":       true,
+	"(go.opentelemetry.io/collector/pdata/pcommon.Value).Map":         true,
+	"(go.opentelemetry.io/collector/pdata/pcommon.Value).CopyTo":      true,
+	"(go.opentelemetry.io/collector/pdata/pcommon.Slice).AppendEmpty": true,
+	"(go.opentelemetry.io/collector/pdata/pcommon.Map).PutEmpty":      true,
+	"(*text/scanner.Scanner).Scan":                                    true,
+	"(*text/scanner.Scanner).TokenText":                               true,
+	"(*text/scanner.Scanner).Pos":                                     true,
+	"(*regexp.Regexp).FindStringSubmatch":                             true,
+	"(*regexp.Regexp).SubexpNames":                                    true,
 }
 
 func (ex *Exec) modelCall(full string, args []Val, st *State, sig *types.Signature) ([]Val, bool) {
@@ -218,10 +228,40 @@ func init() {
 	})
 	for _, n := range []string{"IsSpace", "IsLetter", "IsDigit", "IsUpper", "IsLower", "IsPunct", "IsPrint"} {
 		name := n
-		reg("unicode."+name, "uninterpreted predicate of the rune", func(ex *Exec, a []Val, st *State, _ *types.Signature) []Val {
-			return []Val{UF("unicode."+name, SBool, tm(a[0]))}
+		reg("unicode."+name, "uninterpreted predicate of the rune, false for negative values (such as scanner.EOF)", func(ex *Exec, a []Val, st *State, _ *types.Signature) []Val {
+			r := tm(a[0])
+			p := UF("unicode."+name, SBool, r)
+			if !r.hasBound {
+				ex.fact(nil, Implies(Lt(r, IntT(0)), Not(p)))
+			}
+			return []Val{p}
 		})
 	}
+	// ---- text/scanner: the unread input is a ghost counter scanRemaining(s) >= 0. Next returns EOF
+	// exactly when nothing is left and otherwise consumes one rune; Peek returns EOF exactly when
+	// nothing is left. (Which runes come out is unconstrained.)
+	scanRem := func(ex *Exec, st *State, s *Term) (*Term, *Term) {
+		arr := st.heap.array("G@scanRemaining", arrSort(SPtr, SInt))
+		rem := Select(arr, s)
+		if !rem.hasBound {
+			ex.fact(nil, Ge(rem, IntT(0)))
+		}
+		return arr, rem
+	}
+	regEff("(*text/scanner.Scanner).Next", "returns EOF iff the ghost counter scanRemaining(s) is 0, otherwise decrements it; the rune is unconstrained; the program heap is untouched", func(ex *Exec, a []Val, st *State, _ *types.Signature) []Val {
+		s := tm(a[0])
+		arr, rem := scanRem(ex, st, s)
+		r := Fresh("scan.next", SInt)
+		ex.fact(nil, Eq(Eq(r, IntT(-1)), Eq(rem, IntT(0))))
+		st.heap.set("G@scanRemaining", Store(arr, s, Ite(Gt(rem, IntT(0)), Sub(rem, IntT(1)), IntT(0))))
+		return []Val{r}
+	})
+	reg("(*text/scanner.Scanner).Peek", "returns EOF iff the ghost counter scanRemaining(s) is 0; the rune is unconstrained", func(ex *Exec, a []Val, st *State, _ *types.Signature) []Val {
+		_, rem := scanRem(ex, st, tm(a[0]))
+		r := Fresh("scan.peek", SInt)
+		ex.fact(nil, Eq(Eq(r, IntT(-1)), Eq(rem, IntT(0))))
+		return []Val{r}
+	})
 	reg("strings.Compare", "uninterpreted function", func(ex *Exec, a []Val, st *State, _ *types.Signature) []Val {
 		return []Val{UF("str.compare", SInt, tm(a[0]), tm(a[1]))}
 	})
@@ -352,6 +392,9 @@ func init() {
 	// ---- strconv
 	reg("strconv.FormatInt", "uninterpreted function of (i, base)", func(ex *Exec, a []Val, st *State, _ *types.Signature) []Val {
 		return []Val{UF("strconv.formatInt", SStr, tm(a[0]), tm(a[1]))}
+	})
+	reg("strconv.FormatBool", "\"true\" / \"false\"", func(ex *Exec, a []Val, st *State, _ *types.Signature) []Val {
+		return []Val{Ite(tm(a[0]), StrLit("true"), StrLit("false"))}
 	})
 	reg("strconv.Itoa", "FormatInt(i, 10)", func(ex *Exec, a []Val, st *State, _ *types.Signature) []Val {
 		return []Val{UF("strconv.formatInt", SStr, tm(a[0]), IntT(10))}
